@@ -40,7 +40,7 @@ class Pairs:
         d = impl.scratch_dir()
         try:
             real = [(os.path.join(d, p), t) for p, t in files]
-            for p, t in real[nmain:]:
+            for p, t in real:
                 os.makedirs(os.path.dirname(p), exist_ok=True)
                 with open(p, "w", encoding="utf-8") as f:
                     f.write(t)
@@ -496,6 +496,31 @@ def stream_once(ctx, P, rng, n):
         ctx.count("once included %d times" % k)
         ctx.count("once: the file is named by several spellings of its path", spell)
         P.pair(".once", (files_a, 1), (files_b, 1), nontrivial=k > 1, model=not spell)
+        # the same file also given on the command line, before or after the file that includes it: it still contributes
+        # once (to the first of the two places)
+        if not via and rng.random() < 0.5:
+            one_inc, seen = [], False
+            for ln in a_lines:
+                if ln.startswith(".include"):
+                    if seen:
+                        continue
+                    seen = True
+                one_inc.append(ln)
+            no_inc = [ln for ln in a_lines if not ln.startswith(".include")]
+            if rng.random() < 0.5:
+                # m.mac (includes x) then x.mac: the linked copy adds nothing
+                keep = [("sub/keep.mac", "; keeps the directory\n")]
+                fa = [("m.mac", head + "\n".join(a_lines) + "\n"), ("x.mac", x)] + keep
+                fb = [("m.mac", head + "\n".join(one_inc) + "\n"), ("x.mac", x)] + keep
+                ctx.count("once: linked after being included")
+                P.pair(".once linked and included", (fa, 2), (fb, 1), nontrivial=True, model=False)
+            else:
+                # x.mac first, then m.mac whose includes of it add nothing
+                keep = [("sub/keep.mac", "; keeps the directory\n")]
+                fa = [("x.mac", head + x), ("m.mac", "\n".join(a_lines) + "\n")] + keep
+                fb = [("x.mac", head + x), ("m.mac", "\n".join(no_inc) + "\n")] + keep
+                ctx.count("once: included after being linked")
+                P.pair(".once linked and included", (fa, 2), (fb, 2), nontrivial=True, model=False)
 
 
 def run(ctx):
